@@ -20,8 +20,8 @@ from .base import Engine, Outcome
 
 PROP = "C13"
 
-MODNAMES = ["m1", "m2", "m5", "util", "alpha", "beta", "zeta", "core"]
-PKGNAMES = ["pkg", "sub", "lib", "app"]
+MODNAMES = ["m1", "m2", "m5", "util", "alpha", "beta", "zeta", "core", "pkg_tools", "libx"]  # (two share a prefix with a package name)
+PKGNAMES = ["pkg", "sub", "lib", "app", "pkgs"]
 IDENTS = gen.PROGRAM_IDENTS + ["helper", "Thing", "value", "note"]
 
 SNIPPETS = [
@@ -41,6 +41,19 @@ SNIPPETS = [
     "import helper\n\nhv = helper.util\n",
     "from generated.schema import *\n\ngt = table\n",
     "from generated import schema\n\ngs = schema.COLS\n",
+    # a library outside the project, found through python_path (present in some runs)
+    "import extlib\n\ne1 = extlib.ext_fn(2)\n",
+    "from extlib import ExtThing, ext_fn\n\net = ExtThing()\n",
+    # types named in docstrings / type comments, defined in another module
+    "import beta\n\n\ndef mk(b):\n    \"\"\"\n    :type b: beta.Box\n    :rtype: beta.Box\n    \"\"\"\n    return b\n",
+    "from util import Thing\n\n\ndef th(x):\n    \"\"\":type x: Thing\n    :rtype: Thing\n    \"\"\"\n    return x\n\n\nclass Keep:\n    def __init__(self, item):\n        self.item = item  # type: Thing\n",
+]
+
+EXT_TEXTS = [
+    "def ext_fn(x):\n    return x\n\n\nclass ExtThing:\n    def one(self):\n        return 1\n",
+    "import os\n\n\ndef ext_fn(x, y=0):\n    return x + y\n\n\ndef ext_more():\n    return 0\n\n\nclass ExtThing:\n    def one(self):\n        return 1\n\n    def two(self):\n        return 2\n",
+    "\n\nclass ExtThing:\n    def uno(self):\n        return 1\n\n\nEXT_CONST = 5\n\n\ndef ext_fn(x):\n    return x\n",
+    "def other():\n    return None\n",
 ]
 
 
@@ -89,9 +102,17 @@ class Sim:
 
         self.out = out
         self.swarm = swarm
-        self.dir = kernel.new_scratch("c13-")
+        # with a library outside the project the absolute path is part of the system's input
+        # (out-of-project resources are named and hashed by it): it must be a function of the run
+        self.has_ext = bool(swarm.get("ext"))
+        self.dir = kernel.fixed_scratch("c13-" + (swarm.get("key") or "k")) if self.has_ext else kernel.new_scratch("c13-")
         self.root = os.path.join(self.dir, "proj")
+        self.ext = os.path.join(self.dir, "extlibs")
         kernel.write_tree(self.root, init)
+        if self.has_ext:
+            os.makedirs(self.ext)
+            with open(os.path.join(self.ext, "extlib.py"), "w", encoding="utf-8", newline="") as fh:
+                fh.write(EXT_TEXTS[0])
         self.clock = kernel.SimClock()
         rc.time = kernel.TimeShim(self.clock)
         self._stamp_all()
@@ -101,6 +122,10 @@ class Sim:
         # object-info store; answers that depend on that store are already left out of the battery
         self.prefs = {"automatic_soa": bool(swarm.get("soa", False)),
                       "ignored_resources": ["*.pyc", "*~", ".ropeproject", "generated"]}
+        if self.has_ext:
+            self.prefs["python_path"] = [self.ext]
+            os.utime(os.path.join(self.ext, "extlib.py"), ns=(self.clock.ns, self.clock.ns))
+            os.utime(self.ext, ns=(self.clock.ns, self.clock.ns))
         self.W = Project(self.root, fscommands=self.fs, ropefolder=None, **self.prefs)
         self.sq = _patch_autoimport()
         self.use_autoimport = swarm.get("autoimport", True)
@@ -259,14 +284,14 @@ class Sim:
         try:
             mod, line = pyname.get_definition_location()
             res = mod.get_resource() if mod is not None else None
-            out["def"] = [res.path if res is not None else None, line]
+            out["def"] = [self._rp(res), line]
         except Exception as e:
             out["def"] = "exc:" + type(e).__name__
         try:
             obj = pyname.get_object()
             if isinstance(obj, pyobjects.AbstractModule):
                 r = obj.get_resource() if hasattr(obj, "get_resource") else None
-                out["obj"] = ["module", r.path if r is not None else None, sorted(obj.get_attributes().keys())[:60]]
+                out["obj"] = ["module", self._rp(r), sorted(obj.get_attributes().keys())[:60]]
             elif isinstance(obj, pyobjects.AbstractClass):
                 out["obj"] = ["class", sorted(obj.get_attributes().keys())[:60]]
             elif isinstance(obj, pyobjects.AbstractFunction):
@@ -275,6 +300,8 @@ class Sim:
                 except Exception:
                     params = None
                 out["obj"] = ["function", params]
+                if isinstance(obj, pyobjects.PyFunction):
+                    out["hints"] = self._hint_view(obj, params or [])
             else:
                 # instances: what an assignment's right-hand side evaluates to
                 # goes through return-value inference and the object-info
@@ -288,6 +315,53 @@ class Sim:
                 out["obj"] = "exc:" + type(e).__name__
             else:
                 out["obj"] = "opaque"  # inference of a value failed: inference-dependent, not compared
+        return out
+
+    def _rp(self, res):
+        """Project-relative path; a resource outside the project by its file name."""
+        if res is None:
+            return None
+        if res.real_path.startswith(self.ext + os.sep):
+            return "ext:" + os.path.basename(res.real_path)
+        return res.path
+
+    def _hint_view(self, pyfunction, params):
+        """The classes a function's docstring / comment type hints resolve to (what completion
+        on a hinted parameter or return value offers): name, defining module, attribute names."""
+        from rope.base import pyobjects
+        from rope.base.oi.type_hinting.factory import get_type_hinting_factory
+
+        def cls_view(t):
+            if t is None:
+                return None
+            if isinstance(t, pyobjects.AbstractClass):
+                try:
+                    m = t.get_module() if hasattr(t, "get_module") else None
+                    r = m.get_resource() if m is not None else None
+                except Exception:
+                    r = None
+                try:
+                    return [t.get_name(), self._rp(r), sorted(t.get_attributes().keys())[:60]]
+                except Exception as e:
+                    return "exc:" + type(e).__name__
+            return "other"
+
+        out = {}
+        try:
+            doc = pyfunction.get_doc() or ""
+        except Exception:
+            doc = ""
+        if ":type" not in doc and ":rtype" not in doc:
+            return None
+        try:
+            f = get_type_hinting_factory(pyfunction.pycore.project)
+            out["return"] = cls_view(f.make_return_provider()(pyfunction))
+            pp = f.make_param_provider()
+            for name in params[:4]:
+                out["param:" + name] = cls_view(pp(pyfunction, name))
+        except Exception as e:
+            out["exc"] = type(e).__name__
+        self.out.stats["probe_hint_resolved"] += 1 if any(isinstance(v, list) for v in out.values()) else 0
         return out
 
     def confirm_module(self, path, warm_view):
@@ -569,6 +643,29 @@ class Sim:
                 self.stamp(parent(st["p"]))
                 self._ext(st["p"])
                 self._ext(st["q"])
+            elif a == "e_ext_edit":
+                # the library outside the project is upgraded / edited behind rope's back
+                if not self.has_ext:
+                    return "skip"
+                full = os.path.join(self.ext, "extlib.py")
+                data = st["text"].encode("utf-8")
+                old = open(full, "rb").read()
+                ns_probe = self._probe_ns(st.get("fault"))
+                prev = (os.stat(full).st_mtime_ns, len(old))
+                if data == old:
+                    data += b"\n# touched\n"
+                while (ns_probe, len(data)) == prev or (int(ns_probe / 1e9 * 1e6), len(data)) == (int(prev[0] / 1e9 * 1e6), prev[1]):
+                    data += b"#"
+                with open(full, "wb") as fh:
+                    fh.write(data)
+                os.utime(full, ns=(ns_probe, ns_probe))
+                # only a validation of the whole project covers resources outside it
+                self.pending = True
+                self.pending_paths.add("<ext>")
+                self.pending_kinds.setdefault("<ext>", set()).add("edit")
+                self.taint["external_change"] = True
+                out.stats["fired_external_change"] += 1
+                out.stats["probe_external_library_edited"] += 1
             elif a == "e_touch":
                 if not isfile(st["p"]):
                     return "skip"
@@ -757,6 +854,7 @@ class CoherenceEngine(Engine):
             "faults": rng.choice([[None], [None, "back"], [None, "coarse1", "coarse2"], [None, "back", "coarse1", "same"]]),
             "burst": rng.random() < 0.4,
             "soa": rng.random() < 0.3,
+            "ext": rng.random() < 0.3,
         }
 
     def gen_step(self, rng, sim, swarm):
@@ -844,6 +942,8 @@ class CoherenceEngine(Engine):
             if fault == "same":
                 fault, dt = None, 0
             k = rng.choice(["edit"] * 4 + ["create"] * 2 + ["mkpkg", "delete", "delete", "rename", "rename", "touch"])
+            if swarm.get("ext") and rng.random() < 0.3:
+                return {"a": "e_ext_edit", "text": rng.choice(EXT_TEXTS), "fault": fault, "dt": dt}
             if k == "edit" and pyfiles:
                 p = rng.choice(pyfiles)
                 cur = t[p].decode("utf-8", "replace")
@@ -884,9 +984,19 @@ class CoherenceEngine(Engine):
     def run(self, run_seed):
         rng = kernel.rng_for("coherence", run_seed)
         swarm = self.gen_swarm(rng)
+        swarm["key"] = kernel.short_hash(run_seed)
         init = gen.gen_program(rng)
         for e in init:
             e["nl"] = "lf"
+        have = {e["p"] for e in init}
+        if rng.random() < 0.3 and "pkg" in have:
+            # modules whose dotted names merely start with a package's name
+            if rng.random() < 0.7 and "pkg_tools.py" not in have:
+                init.append({"p": "pkg_tools.py", "text": "def tool():\n    return 1\n\n\nTOOLS = 2\n", "nl": "lf", "enc": "utf-8"})
+            if rng.random() < 0.5 and "pkgs" not in have:
+                init.append({"p": "pkgs", "dir": True})
+                init.append({"p": "pkgs/__init__.py", "text": "", "nl": "lf", "enc": "utf-8"})
+                init.append({"p": "pkgs/more.py", "text": "def more():\n    return 2\n", "nl": "lf", "enc": "utf-8"})
         if rng.random() < 0.5:
             # an ignored folder with a module the project imports from
             init.append({"p": "generated", "dir": True})
